@@ -52,6 +52,7 @@ prop("C09", "RU (UTF-16 positions never mixed with code-point counts in any func
     lambda p, r: ru.rule_ru(p, r, min_funcs=8),
     lambda p, r: rs.rule_rs_readers(p, r, ("path",)),
     rcustom.rule_rt3,
+    rcustom.rule_rt4,
     lambda p, r: rl.rule_rl(p, r, files=("prosemirror/model/fragment.py", "prosemirror/model/resolvedpos.py", "prosemirror/model/node.py")),
     lambda p, r: rl.rule_rl_rank(p, r, [("prosemirror/model/fragment.py::Fragment.find_index", "counter"), ("prosemirror/model/resolvedpos.py::ResolvedPos.resolve", "descent"), ("prosemirror/model/node.py::Node.node_at", "descent")]),
     gates("C09"),
@@ -74,6 +75,7 @@ prop("C20", "RL (no stuck cycle path) + ranking variable on find_diff_start/find
     lambda p, r: rl.rule_rl_rank(p, r, [("prosemirror/model/diff.py::find_diff_start", "counter"), ("prosemirror/model/diff.py::find_diff_end", "counter")]),
     lambda p, r: ru.rule_ru(p, r, files=("prosemirror/model/diff.py",)),
     lambda p, r: rsmall.rule_rz(p, r),
+    rcustom.rule_rt4,
     gates("C20"),
 ], [lambda p, r: rl.rule_rl(p, r)])
 
@@ -86,7 +88,7 @@ prop("C11", "RP-fitter (placed / frontier-match pairing, frontier pushes), RG ga
 prop("C13", "RG gates of the mark planners (coalescing conditions, permission), RT on Mark.add_to_set, RU on clear_incompatible", [gates("C13"), lambda p, r: rt.rule_rt(p, r, only={"prosemirror/model/mark.py::Mark.add_to_set"}), lambda p, r: ru.rule_ru(p, r, files=("prosemirror/transform/transform.py",))])
 prop("C15", "RG gates of the fill and wrapper searches (generatable guard, seen-set discipline, BFS order)", [gates("C15")])
 prop("C16", "RG gates: merge guards of ReplaceStep / AddMarkStep / RemoveMarkStep", [gates("C16"), rcustom.rule_merge_slices, lambda p, r: rn.rule_rsib(p, r, only=(".merge",))])
-prop("C17", "RG gates: keep/drop conditions of every Step.map", [gates("C17"), rn.rule_rn_assoc, lambda p, r: rn.rule_rsib(p, r, only=(".map",))])
+prop("C17", "RG gates: keep/drop conditions of every Step.map", [gates("C17"), rcustom.rule_rt4, rn.rule_rn_assoc, lambda p, r: rn.rule_rsib(p, r, only=(".map",))])
 
 
 _PROG: Program | None = None
